@@ -3,14 +3,14 @@ import itertools
 import subprocess
 import vlib, gen, gen_dag, gen_s2026
 
-LEVEL = "other"
+LEVEL = "proof"
 FAMILY = "s2026"
 
 MANIFEST = {
- "level": 'other',
- "text": "Partly proved, partly explored; see coq/Props/C20.v for which conjuncts are theorems. The Gallina model covers the serializer byte for byte (interning, reference counts, the atom sort, grouping, instruction emission, varints), the decoder in strict and lenient mode with max_atom_len, and the length probe; it is compared with the implementation on trees x levels and on exhaustive short / grammar-mutated / random byte strings x max_atom_len in {0,1,2^20,2^63,...}. Every relation of the statement is also searched on the implementation alone.",
- "note": vlib.NOTE_COMMON + " Level 'other' because not every conjunct of the statement is a theorem (Props/C20.v lists them). Real memory use is outside the model: the only allocation whose size comes from the input is bounded by max_atom_len by construction.",
- "technique": 'Coq proof (fuel/consumption invariants for totality, lock-step simulation decoder/probe, classic decoder on the magic prefix) + model/implementation differential run (exhaustive <= 2-byte bodies, grammar-aware mutations) + implementation search',
+ "level": 'proof',
+ "text": "Every conjunct of the statement is a Coq theorem about the Gallina model (coq/Props/C20.v): round trip in strict and lenient mode (C20_roundtrip, C20_roundtrip_stream), probe = blob length (C20_len), the serializer returns normally and fails exactly on its MAX_INDEX check (C20_serializer_total; all three in C20_serialize_all), decoder and probe total on every byte string and every max_atom_len (C20_decoder_total, C20_probe_total, C20_alloc_bounded), probe = bytes consumed (C20_probe_consumed), classic and both back-reference decoders reject the magic prefix (C20_magic_classic, C20_magic_backref, C20_magic_backref_probe). Limits of the round-trip theorems, stated in the header of Props/C20.v: atoms are byte strings shorter than 2^55 (the 56-bit varint range; the allocator cannot hold such an atom), max_atom_len >= every atom length, blob shorter than 2^64. The model covers the serializer byte for byte (interning, reference counts, the atom sort, grouping, instruction emission, varints), the decoder in strict and lenient mode with max_atom_len, and the length probe; it is compared with the implementation on trees x levels and on exhaustive short / grammar-mutated / random byte strings x max_atom_len in {0,1,2^20,2^63,...}. Every relation of the statement is also searched on the implementation alone.",
+ "note": vlib.NOTE_COMMON + " Real memory use is outside the model: the only allocation whose size comes from the input is bounded by max_atom_len by construction. The allocator's limits (atom/pair counts, heap size) are outside the model: decoded values are built in a free value algebra.",
+ "technique": 'Coq proof (varint round trip composed over the length-grouped atom table and the instruction list; instruction semantics rebuilds the interned tree; sort = permutation; emit fuel by a once-per-pair expansion invariant; fuel/consumption invariants for decoder totality; lock-step simulation decoder/probe; first-byte dispatch of the classic and back-reference decoders) + model/implementation differential run (exhaustive <= 2-byte bodies, grammar-aware mutations) + implementation search',
 }
 
 MAXES = [0, 1, 2**20, 2**63]
@@ -28,8 +28,8 @@ def run(ctx):
                 "left-over stack, overlong varints, truncation, trailing bytes, bit flips, 0xff, missing or damaged magic), each with strict and lenient and "
                 "max_atom_len in {0, 1, 2^20, 2^63, longest declared length, that - 1}; non-trivial = a tree with a pair, or a byte string of >= 9 bytes")
     ctx.explanation = ("Model vs implementation on every case (serializer output bytes; decoder result tree digest + bytes consumed or error kind; probe value or error kind; "
-                       "classic decoder's verdict). Search on the implementation alone: round trip strict and lenient, probe = blob length, classic and both back-reference decoders "
-                       "reject every magic-prefixed blob, decode ok => probe ok with the bytes consumed, strict ok => lenient ok with the same result, no panic.")
+                       "classic decoder's verdict). Search on the implementation alone: round trip strict and lenient, probe = blob length, classic and both back-reference decoders and the back-reference length probe "
+                       "reject every magic-prefixed blob (the latter three also model vs implementation, family br), decode ok => probe ok with the bytes consumed, strict ok => lenient ok with the same result, no panic.")
     ctx.proofs()
     if not ctx.build():
         return
@@ -153,6 +153,18 @@ def run(ctx):
                     l = obs.get("de 0 %s %s" % (t[2], t[3]))
                     if l is not None and l != o:
                         ctx.violation("strict decoding succeeds but lenient decoding differs: " + l[:200], {"case": c, "family": "s2026", "impl": o})
+    # the models of both back-reference decoders and of the back-reference length probe (Model/BackRef.v,
+    # about which C20_magic_backref / C20_magic_backref_probe are stated) against the implementation on
+    # magic-prefixed blobs (result, error kind and the pair count left behind), and the property itself
+    brm = [k + " " + gen.hx(data) for data, tag, ml in structured if data[:6] == gen_s2026.MAGIC for k in ("new", "old", "probe")]
+    brm += [k + " " + gen.hx(data) for data, tag in blobs if data[:6] == gen_s2026.MAGIC and tag != "short3" for k in ("new", "old", "probe")]
+    ctx.correspond("br", brm, name="s2026-backref-magic", nontrivial=lambda c, a, b: len(c.split()[1]) >= 18)
+    outs = vlib.run_impl("br", brm)
+    for l, o in zip(brm, outs):
+        ctx.evaluations += 1
+        if not o.startswith("err "):
+            ctx.violation("a back-reference decoder / length probe accepts a blob that starts with the 2026 magic prefix (or failed abnormally): " + o[:200],
+                          {"case": l, "family": "br", "impl": o})
     clbr = ["clbr " + gen.hx(data) for data, tag, ml in structured if data[:6] == gen_s2026.MAGIC] + \
            ["clbr " + gen.hx(data) for data, tag in blobs if data[:6] == gen_s2026.MAGIC and tag != "short3"]
     outs = vlib.run_impl("s2026", cl + clbr)
